@@ -2,9 +2,9 @@ SPECIFICATION MCSpec
 CONSTANTS
   Actors = {"a1", "a2", "a3"}
   Victims = {"a2"}
-  Ignore = {}
-  FixIgnore = FALSE
-  Prog <- ProgAll
+  Ignore = {"a2"}
+  FixIgnore = TRUE
+  Prog <- Prog1
   ForwardOnCancel = TRUE
   UnlockGt = 1
 INVARIANTS MutualExclusion DataVisible PopNeverEmpty QuiescentFree TryLockSound
